@@ -125,7 +125,7 @@ func hazard(data []byte, n int) bool {
 		case len(rem) < n:
 			return false
 		case len(rem) == n:
-			return rem[n-1] != '\r'
+			return true // the guard of the theorems (a_read_slice HAZARD) has no CR exception
 		}
 		if rem[n-1] == '\r' {
 			rem = rem[n-1:]
